@@ -993,3 +993,18 @@ Proof.
     apply (f_equal (@rev cev)) in E. rewrite rev_involutive in E. cbn in E. rewrite Hcs in E. subst evs.
     exists (mkOut cs (FDone content r n)). split; [discriminate|reflexivity].
 Qed.
+
+(** * raw requests: nil and empty are the same request, and every site reads "tools requested" the same way *)
+Lemma norm_raw_cfg q1 q2 : norm_raw q1 = norm_raw q2 ->
+  chat_cfg_of q1 = chat_cfg_of q2 /\ chat_ns_tools_of q1 = chat_ns_tools_of q2.
+Proof.
+  destruct q1 as [s1 t1], q2 as [s2 t2]. unfold norm_raw, chat_cfg_of, chat_ns_tools_of. cbn.
+  intros [= Hs Ht]. split.
+  - f_equal.
+    + destruct s1 as [| |[|]], s2 as [| |[|]]; cbn in *; congruence.
+    + destruct t1 as [| |[|]], t2 as [| |[|]]; cbn in *; congruence.
+  - destruct t1 as [| |[|]], t2 as [| |[|]]; cbn in *; congruence.
+Qed.
+
+Lemma raw_sites_agree q : c_tools (chat_cfg_of q) = chat_ns_tools_of q.
+Proof. reflexivity. Qed.
